@@ -1,18 +1,22 @@
 ---------------------------- MODULE Trace_Regroup ----------------------------
 (* Trace validation for property C11: one line per public call chain on a real dictable:         *)
-(*   listby  : d.listby(by) and .unlist() of it (with the real cmp of adjacent key cells)        *)
-(*   groupby : d.groupby(by) and .ungroup() of it                                                *)
+(*   listby  : d.listby(by) and .unlist() of it (with the real cmp of adjacent key cells);       *)
+(*             idcol names the column that numbers the rows (the witness of stability)           *)
+(*   groupby : d.groupby(by [, grp = name]) and .ungroup([name]) of it                           *)
 (*   pivot   : d.pivot(x, y, z, agg) and, for agg = last, .unpivot(x, y, z) without None cells   *)
+(* Column names, y labels and the spelling of the key arguments (form: names / one list / a     *)
+(* single name) are part of the case; column labels of results arrive encoded (Regroup!LabelEnc).*)
 EXTENDS Regroup, Batch
 
 Verdict(o) ==
-    IF o.raised # "" THEN o.op \o "_raises"
+    IF o.op = "pivot" /\ LabelClash(o.t, o.x, o.y) THEN ""          \* outside the domain: two columns of one name
+    ELSE IF o.raised # "" THEN o.op \o "_raises"
     ELSE IF o.after # o.t THEN "operand_changed"
     ELSE CASE o.op = "listby" ->
                 LET v == ListbyVerdict(o.t, o.by, o.out) IN
-                IF v # "" THEN v ELSE IF NRows(o.t) = 0 THEN "" ELSE UnlistVerdict(o.t, o.by, o.unl, o.colcmp, "p")
+                IF v # "" THEN v ELSE IF NRows(o.t) = 0 THEN "" ELSE UnlistVerdict(o.t, o.by, o.unl, o.colcmp, o.idcol)
            [] o.op = "groupby" ->
-                LET v == GroupbyVerdict(o.t, o.by, o.out) IN
+                LET v == GroupbyVerdict(o.t, o.by, o.grp, o.out) IN
                 IF v # "" THEN v
                 ELSE IF ~o.ung2 THEN "ungroup_twice_differs"          \* ungroup must not consume the grouped table
                 ELSE UngroupVerdict(o.t, o.by, o.ung)
